@@ -40,6 +40,26 @@ def run(tier, seed, replay):
                 image = '\n'.join('image file ' + p for p in paths)
             except ValueError:
                 image = None
+        if i % 7 == 3:
+            # header updates: an image whose header lists fewer L1 entries than the virtual size needs; a write far
+            # into the disk makes the library extend the L1 table and rewrite the header
+            import foreign, qimg
+            cbx = rng.choice([9, 10, 12])
+            csx = 1 << cbx
+            l2e = csx // 8
+            nl1 = rng.choice([3, 8])
+            clusters = {gc: ('data', foreign.cluster_bytes(rng, csx, 'blocks')) for gc in rng.sample(range(0, l2e), 3)}
+            desc = qimg.ImageDesc(version=3, cluster_bits=cbx, refcount_order=4, size=l2e * nl1 * csx, clusters=clusters, l1_minimal=True)
+            try:
+                paths, _ = foreign.write_images(d, cid, [desc])
+                bsb = min(rng.choice([9, 10, 12]), cbx)
+                sb = max(bsb, 9)
+                g = hist.Geom(cbx, 4, desc.size, bsb, (sb, 4 << sb), (sb, 4 << sb))
+                hi = (l2e * (nl1 - 1) + 5) * csx
+                ops = [('W', hi, csx, 1), ('F',), ('W', l2e * csx + csx, csx, 2), ('R', hi, csx), ('F',)]
+                image = 'image file ' + paths[0]
+            except ValueError:
+                image = None
         lines = [hist.op_line(o) for o in ops] + ['F', 'alignstat %d' % g.bs]
         cases.append({'cid': cid, 'g': g, 'ops': ops, 'text': hist.case_text(cid, g, lines, image=image)})
     obs = seqrun.run_cases_text(d, [(c['cid'], c['text']) for c in cases])
